@@ -13,12 +13,20 @@ Transcribed from
                                                   erase_duplicate_segments, find_intersections
   include/osmium/area/detail/proto_ring.hpp       add_segment_back (m_sum), reverse, is_cw,
                                                   fix_direction
-  include/osmium/area/detail/basic_assembler.hpp  create_locations_list / find_split_locations
-                                                  (the open-ring and touching-ring counts only)
+  include/osmium/area/detail/basic_assembler.hpp  slocation, create_locations_list,
+                                                  find_split_locations, get_next_segment,
+                                                  add_new_ring, create_rings_simple_case,
+                                                  find_enclosing_ring (+ remove_duplicates),
+                                                  is_split_location, add_new_ring_complex and the
+                                                  two cutting loops of create_rings_complex_case
+                                                  (section "ring building" at the end of this file)
 
-NOT modelled (DESIGN.md: C10 is partial): the ring-building search of basic_assembler.hpp
-(add_new_ring*, find_candidates, join_connected_rings, find_enclosing_ring).  Its OUTPUT is
-judged by `Valid` below.
+NOT modelled (DESIGN.md: C10 is partial): the rest of the complex case — try_to_merge,
+merge_two_rings, join_connected_rings, find_candidates, find_inner_outer_complex.  The OUTPUT of
+the whole assembler is judged by `Valid` below.  `find_enclosing_ring` compares heights as C++
+`double`s: it is transcribed with Lean's `Float` (IEEE binary64, same operations), so it can be run
+and compared with the real code, but no theorem speaks about it — the ring-building theorems
+quantify over every function in its place.
 
 Coordinates are unbounded `Int`; the property's domain is |x|,|y| ≤ 2^29, on which every
 int64 intermediate of the C++ code stays inside (−2^63, 2^63) (`no_overflow` in Props/C10.lean),
@@ -508,5 +516,338 @@ def preCheck (input : List Seg) : PreCheck :=
     else
       let (o, t) := openAndSplit l
       ⟨input.length, pairs, ov, l.length, ix, o, if o > 0 then 0 else t⟩
+
+
+/-! ## ring building (basic_assembler.hpp): `m_locations`, `find_split_locations`, the simple case
+
+Transcribed from include/osmium/area/detail/basic_assembler.hpp:
+`struct slocation`, `create_locations_list`, `find_split_locations`, `get_next_segment`,
+`add_new_ring`, `create_rings_simple_case`, `find_enclosing_ring`, `remove_duplicates`,
+`is_split_location`, `add_new_ring_complex` and the first two loops of
+`create_rings_complex_case`; from proto_ring.hpp: `add_segment_back`, `reverse`, `fix_direction`.
+
+`segs` below is `m_segment_list` as it is when ring building starts: sorted, duplicates
+cancelled (`eraseDuplicates (sortSegs input)`).  A segment is addressed by its index (`item`).
+Per-segment mutable state of the C++ code and how it is represented here:
+  * `m_ring` / `is_done()`        : the segment's index is in the list `ds` (= it is in some ring);
+  * `m_reverse`                   : the `reverse` flag stored with the segment in its ring
+                                    (a segment that is in no ring has never been reversed: false);
+  * `m_direction_done`            : in the simple case it is set exactly when the segment is put
+                                    into a ring (`mark_direction_done` next to every
+                                    `add_segment_back`), so it equals `is_done()` whenever
+                                    `find_enclosing_ring` looks at it.
+-/
+
+/-- `BasicAssembler::slocation` : segment number and which end (`reverse` = `second()`). -/
+structure SLoc where
+  item : Nat
+  reverse : Bool
+deriving DecidableEq, Repr, Inhabited
+
+/-- `m_segment_list[i]`.  (Reads past the end are never performed — `locations_items_lt`,
+    `getNext_spec` — the default segment only makes the function total.) -/
+def segAt (segs : List Seg) (i : Nat) : Seg := segs.getD i default
+
+namespace SLoc
+/-- `slocation::location(segment_list)` : `reverse ? second() : first()`.  For a ring entry
+    (segment + its `m_reverse`) this is `start()`. -/
+def loc (segs : List Seg) (s : SLoc) : Vec :=
+  if s.reverse then (segAt segs s.item).second else (segAt segs s.item).first
+/-- `stop()` of a ring entry : `m_reverse ? first() : second()` -/
+def stop (segs : List Seg) (s : SLoc) : Vec :=
+  if s.reverse then (segAt segs s.item).first else (segAt segs s.item).second
+/-- the other end of the same segment / `NodeRefSegment::reverse()` on a ring entry -/
+def flip (s : SLoc) : SLoc := ⟨s.item, !s.reverse⟩
+end SLoc
+
+/-- what `create_locations_list` pushes before sorting: (0,false), (0,true), (1,false), … -/
+def allSLocs : Nat → List SLoc
+  | 0 => []
+  | n + 1 => allSLocs n ++ [⟨n, false⟩, ⟨n, true⟩]
+
+/-- insertion that keeps equal locations in their original order when elements are inserted
+    from the back (`foldr`): `x` goes in front of the first element that is not smaller. -/
+def insertSLoc (segs : List Seg) (x : SLoc) : List SLoc → List SLoc
+  | [] => [x]
+  | h :: t => if (h.loc segs).lt (x.loc segs) then h :: insertSLoc segs x t else x :: h :: t
+
+/-- `create_locations_list()` : `std::stable_sort` by location.  Every stable sort produces this
+    list (`locations_stable`: sorted by location, ties in the order (item, reverse)). -/
+def locationsList (segs : List Seg) : List SLoc :=
+  (allSLocs segs.length).foldr (insertSLoc segs) []
+
+/-- default-constructed `osmium::Location` (`previous_location` in `find_split_locations`):
+    both coordinates `undefined_coordinate = 2147483647`. -/
+def undefinedLoc : Vec := ⟨2147483647, 2147483647⟩
+
+/-- the loop of `find_split_locations()` over `m_locations`.  `prev` = `previous_location`,
+    `splits` = `m_split_locations` (push order).  Result: the slocations reported with
+    `report_ring_not_closed` (`m_stats.open_rings` = their number) and `m_split_locations`.
+    The `if (it == m_locations.end()) break;` after `++it` is dead code (`std::next(it)` was
+    just seen not to be the end). -/
+def findSplitScan (segs : List Seg) : Vec → List Vec → List SLoc → List SLoc × List Vec
+  | _, splits, [] => ([], splits)
+  | _, splits, [a] => ([a], splits)
+  | prev, splits, a :: b :: rest =>
+    if a.loc segs != b.loc segs then
+      ((findSplitScan segs (a.loc segs) splits (b :: rest)).1.cons a,
+       (findSplitScan segs (a.loc segs) splits (b :: rest)).2)
+    else
+      findSplitScan segs (a.loc segs)
+        (if a.loc segs == prev && (splits.isEmpty || splits.getLast? != some prev)
+         then splits ++ [prev] else splits) rest
+
+/-- `find_split_locations()` : (reported open ends, `m_split_locations`); the C++ function
+    returns `open_rings == 0`. -/
+def findSplitLocations (segs : List Seg) : List SLoc × List Vec :=
+  findSplitScan segs undefinedLoc [] (locationsList segs)
+
+/-- `is_split_location` : `std::find` in `m_split_locations` -/
+def isSplitLocation (splits : List Vec) (v : Vec) : Bool := splits.contains v
+
+/-- `get_next_segment(location)` : `std::lower_bound` in `m_locations` (= the first element whose
+    location is not smaller: the list is sorted), then `if (is_done) ++it`.  `none` = one of the
+    three `assert`s fails (with NDEBUG the C++ code would read past the end / return a segment
+    that is already in a ring: outside the model). -/
+def getNext (segs : List Seg) (locs : List SLoc) (ds : List Nat) (location : Vec) : Option Nat :=
+  match locs.dropWhile (fun x => (x.loc segs).lt location) with
+  | [] => none
+  | a :: rest =>
+    if ds.contains a.item then
+      match rest with
+      | [] => none
+      | b :: _ => if ds.contains b.item then none else some b.item
+    else some a.item
+
+/-- the `while (first_location != last_location)` loop of `add_new_ring`.  `ds` = segments that
+    are in a ring, `cur` = `ring->segments()` with the `m_reverse` flags.  `fuel` bounds the number
+    of iterations (`none` when it runs out; `ring_loop_terminates`: the number of segments not yet
+    in a ring is enough).  The segment found has never been reversed, so `start()` is `first()`:
+    it is reversed iff `first() != last_location`. -/
+def ringLoop (segs : List Seg) (locs : List SLoc) :
+    Nat → Vec → Vec → List Nat → List SLoc → Option (List Nat × List SLoc)
+  | 0, first, last, ds, cur => if first == last then some (ds, cur) else none
+  | fuel + 1, first, last, ds, cur =>
+    if first == last then some (ds, cur)
+    else
+      match getNext segs locs ds last with
+      | none => none
+      | some r =>
+        let e : SLoc := ⟨r, (segAt segs r).first != last⟩
+        ringLoop segs locs fuel first (e.stop segs) (r :: ds) (cur ++ [e])
+
+/-- `ProtoRing` : `m_segments` (with each segment's `m_reverse`) and `m_outer_ring` (index into
+    `m_rings`; `none` = outer ring).  `m_sum` is `Ring.sum` of `ringOf`. -/
+structure PRing where
+  segs : List SLoc
+  outer : Option Nat
+deriving DecidableEq, Repr, Inhabited
+
+/-- the directed segments of a ring -/
+def ringOf (segs : List Seg) (r : List SLoc) : Ring := r.map fun x => ⟨segAt segs x.item, x.reverse⟩
+
+/-- `ProtoRing::reverse()` on the entries -/
+def revEntries (r : List SLoc) : List SLoc := (r.map SLoc.flip).reverse
+
+/-- `ProtoRing::fix_direction()` : `if (is_cw() == is_outer()) reverse();` -/
+def fixEntries (segs : List Seg) (r : List SLoc) (isOuter : Bool) : List SLoc :=
+  if (ringOf segs r).isCw == isOuter then revEntries r else r
+
+/-- What `find_enclosing_ring` may answer: the index of the enclosing outer ring (`some (some k)`),
+    "this is an outer ring" (`some none`), or an `assert` failure (`none`).  The theorems about
+    ring building quantify over ALL such functions — `find_enclosing_ring` compares heights as
+    `double`s, and nothing that is proved depends on what it answers. -/
+abbrev Enclosing := List PRing → Nat → Option (Option Nat)
+
+/-- `add_new_ring(node)`.  Returns the new `m_rings`, the new set of done segments and the number
+    of segments of the ring (`nodes`). -/
+def addNewRing (enc : Enclosing) (segs : List Seg) (locs : List SLoc) (rings : List PRing)
+    (ds : List Nat) (node : SLoc) : Option (List PRing × List Nat × Nat) :=
+  -- if (node.reverse) segment->reverse();   (the ring entry `node` itself: start() = node.loc)
+  -- if (segment != &m_segment_list.front()) outer_ring = find_enclosing_ring(segment);
+  match (if node.item != 0 then enc rings node.item else some none) with
+  | none => none
+  | some outer =>
+    -- m_rings.emplace_back(segment): the segment is done; first/last location
+    match ringLoop segs locs (segs.length - (ds.length + 1)) (node.loc segs) (node.stop segs)
+        (node.item :: ds) [node] with
+    | none => none
+    | some (ds', cur) =>
+      -- ring->fix_direction()
+      some (rings ++ [⟨fixEntries segs cur outer.isNone, outer⟩], ds', cur.length)
+
+/-- the `for (const slocation& sl : m_locations)` loop of `create_rings_simple_case`;
+    `cnt` = `count_remaining` (only compared with 0; `Int` so that no wrap-around is hidden). -/
+def simpleFor (enc : Enclosing) (segs : List Seg) (locs : List SLoc) :
+    List SLoc → List PRing → List Nat → Int → Option (List PRing × List Nat)
+  | [], rings, ds, _ => some (rings, ds)
+  | sl :: rest, rings, ds, cnt =>
+    if ds.contains sl.item then simpleFor enc segs locs rest rings ds cnt
+    else
+      match addNewRing enc segs locs rings ds sl with
+      | none => none
+      | some (rings', ds', nodes) =>
+        if cnt - nodes == 0 then some (rings', ds')
+        else simpleFor enc segs locs rest rings' ds' (cnt - nodes)
+
+/-- `create_rings_simple_case()` : `m_rings` and the segments that are in a ring. -/
+def createRingsSimple (enc : Enclosing) (segs : List Seg) : Option (List PRing × List Nat) :=
+  simpleFor enc segs (locationsList segs) (locationsList segs) [] [] segs.length
+
+/-! ### `find_enclosing_ring` (uses `double`: executable, kept out of the theorems) -/
+
+/-- (ring index, m_reverse) of segment `i` if it is in a ring -/
+def lookupSeg (rings : List PRing) (i : Nat) : Option (Nat × Bool) :=
+  let rec go : List PRing → Nat → Option (Nat × Bool)
+    | [], _ => none
+    | r :: rest, k =>
+      match r.segs.find? (fun x => x.item == i) with
+      | some x => some (k, x.reverse)
+      | none => go rest (k + 1)
+  go rings 0
+
+/-- the first `while` of `find_enclosing_ring` : move to the last segment of the group that
+    starts in `location` + 1 (or stay on the last segment of the list) -/
+def skipGroup (segs : List Seg) (location : Vec) : Nat → Nat → Nat
+  | 0, s => s
+  | fuel + 1, s =>
+    if (segAt segs s).first == location then
+      (if s + 1 == segs.length then s else skipGroup segs location fuel (s + 1))
+    else s
+
+/-- `rings_stack_element` -/
+structure StackEl where
+  y : Float
+  ring : Nat
+
+/-- one iteration of the second `while` of `find_enclosing_ring` for segment number `s` -/
+def enclosingStep (segs : List Seg) (rings : List PRing) (location endLocation : Vec)
+    (s : Nat) (acc : Int × List StackEl) : Int × List StackEl :=
+  match lookupSeg rings s with
+  | none => acc                                   -- !is_direction_done()
+  | some (k, rev) =>
+    let a := (segAt segs s).first
+    let b := (segAt segs s).second
+    let isOuter := ((rings.getD k default).outer).isNone
+    if a == location then
+      let z := (b.x - a.x) * (endLocation.y - a.y) - (b.y - a.y) * (endLocation.x - a.x)
+      if z > 0 then
+        (acc.1 + (if rev then -1 else 1),
+         if isOuter then acc.2 ++ [⟨Float.ofInt a.y, k⟩] else acc.2)
+      else acc
+    else if a.x ≤ location.x && location.x < b.x then
+      let z := (b.x - a.x) * (location.y - a.y) - (b.y - a.y) * (location.x - a.x)
+      if z ≥ 0 then
+        (acc.1 + (if rev then -1 else 1),
+         if isOuter then
+           acc.2 ++ [⟨Float.ofInt a.y + Float.ofInt ((b.y - a.y) * (location.x - a.x)) / Float.ofInt (b.x - a.x), k⟩]
+         else acc.2)
+      else acc
+    else acc
+
+/-- segments `s, s-1, …, 0` -/
+def enclosingScan (segs : List Seg) (rings : List PRing) (location endLocation : Vec) :
+    Nat → Int × List StackEl → Int × List StackEl
+  | 0, acc => enclosingStep segs rings location endLocation 0 acc
+  | s + 1, acc =>
+    enclosingScan segs rings location endLocation s (enclosingStep segs rings location endLocation (s + 1) acc)
+
+/-- stable insertion into a list sorted ascending by `y` (after the equal elements) -/
+def insertEl (e : StackEl) : List StackEl → List StackEl
+  | [] => [e]
+  | h :: t => if e.y < h.y then e :: h :: t else h :: insertEl e t
+
+/-- `std::stable_sort(outer_rings.rbegin(), outer_rings.rend())` : the reversed vector sorted
+    ascending (stable), read backwards again -/
+def sortStack (l : List StackEl) : List StackEl :=
+  (l.reverse.foldl (fun acc e => insertEl e acc) []).reverse
+
+/-- `remove_duplicates` : erase adjacent pairs with the same ring until there is none -/
+def removeDupStep : List StackEl → Option (List StackEl)
+  | a :: b :: rest =>
+    if a.ring == b.ring then some rest else (removeDupStep (b :: rest)).map (a :: ·)
+  | _ => none
+
+def removeDups : Nat → List StackEl → List StackEl
+  | 0, l => l
+  | fuel + 1, l =>
+    match removeDupStep l with
+    | none => l
+    | some l' => removeDups fuel l'
+
+/-- `find_enclosing_ring(&m_segment_list[s])` -/
+def findEnclosingRing (segs : List Seg) : Enclosing := fun rings s =>
+  let location := (segAt segs s).first
+  let endLocation := (segAt segs s).second
+  let s' := skipGroup segs location segs.length s
+  let (nesting, stack) := enclosingScan segs rings location endLocation s' (0, [])
+  if nesting % 2 == 0 then some none
+  else
+    match removeDups stack.length (sortStack stack) with
+    | [] => none                                  -- assert(!outer_rings.empty())
+    | e :: _ => some (some e.ring)
+
+/-! ### the complex case: partial rings between split locations -/
+
+/-- the loop of `add_new_ring_complex` :
+    `while (first_location != last_location && !is_split_location(last_location))` -/
+def ringLoopComplex (segs : List Seg) (locs : List SLoc) (splits : List Vec) :
+    Nat → Vec → Vec → List Nat → List SLoc → Option (List Nat × List SLoc)
+  | 0, first, last, ds, cur =>
+    if first == last || isSplitLocation splits last then some (ds, cur) else none
+  | fuel + 1, first, last, ds, cur =>
+    if first == last || isSplitLocation splits last then some (ds, cur)
+    else
+      match getNext segs locs ds last with
+      | none => none
+      | some r =>
+        let e : SLoc := ⟨r, (segAt segs r).first != last⟩
+        ringLoopComplex segs locs splits fuel first (e.stop segs) (r :: ds) (cur ++ [e])
+
+/-- `add_new_ring_complex(node)` : the new (possibly open) ring and the done set -/
+def addNewRingComplex (segs : List Seg) (locs : List SLoc) (splits : List Vec)
+    (ds : List Nat) (node : SLoc) : Option (List Nat × List SLoc) :=
+  ringLoopComplex segs locs splits (segs.length - (ds.length + 1)) (node.loc segs) (node.stop segs)
+    (node.item :: ds) [node]
+
+/-- `for (auto& loc : locs) if (!is_done) { count_remaining -= add_new_ring_complex(loc); if (count_remaining == 0) break; }`
+    — both loops of `create_rings_complex_case` have this body; the result says whether the
+    `break` was taken. -/
+def complexFor (segs : List Seg) (locs : List SLoc) (splits : List Vec) :
+    List SLoc → List (List SLoc) → List Nat → Int → Option (List (List SLoc) × List Nat × Int × Bool)
+  | [], rings, ds, cnt => some (rings, ds, cnt, false)
+  | sl :: rest, rings, ds, cnt =>
+    if ds.contains sl.item then complexFor segs locs splits rest rings ds cnt
+    else
+      match addNewRingComplex segs locs splits ds sl with
+      | none => none
+      | some (ds', cur) =>
+        if cnt - cur.length == 0 then some (rings ++ [cur], ds', cnt - cur.length, true)
+        else complexFor segs locs splits rest (rings ++ [cur]) ds' (cnt - cur.length)
+
+/-- `std::equal_range` in the sorted `m_locations` : the slocations at `location` -/
+def equalRange (segs : List Seg) (locs : List SLoc) (location : Vec) : List SLoc :=
+  (locs.dropWhile (fun x => (x.loc segs).lt location)).takeWhile (fun x => !(location.lt (x.loc segs)))
+
+/-- first loop of `create_rings_complex_case` : over `m_split_locations`.  (The `break` only
+    leaves the inner loop; with `count_remaining == 0` every later segment is done.) -/
+def complexSplitLoop (segs : List Seg) (locs : List SLoc) (splits : List Vec) :
+    List Vec → List (List SLoc) → List Nat → Int → Option (List (List SLoc) × List Nat × Int)
+  | [], rings, ds, cnt => some (rings, ds, cnt)
+  | v :: rest, rings, ds, cnt =>
+    match complexFor segs locs splits (equalRange segs locs v) rings ds cnt with
+    | none => none
+    | some (rings', ds', cnt', _) => complexSplitLoop segs locs splits rest rings' ds' cnt'
+
+/-- the part of `create_rings_complex_case` that cuts the segments into partial rings: both
+    loops (the merging/searching that follows is NOT modelled). -/
+def createPieces (segs : List Seg) (splits : List Vec) : Option (List (List SLoc) × List Nat) :=
+  let locs := locationsList segs
+  match complexSplitLoop segs locs splits splits [] [] segs.length with
+  | none => none
+  | some (rings, ds, cnt) =>
+    if cnt > 0 then
+      (complexFor segs locs splits locs rings ds cnt).map fun (r, d, _, _) => (r, d)
+    else some (rings, ds)
 
 end Osmium.Area
